@@ -676,6 +676,9 @@ func (prop) Run(raw json.RawMessage, scratch string) core.Result {
 		if !validLocalName(e.Name) {
 			res.GoViolations = append(res.GoViolations, fmt.Sprintf("package %q is imported under %q, which is not a usable Go identifier", e.Path, e.Name))
 		}
+		if types.Universe.Lookup(e.Name) != nil {
+			res.GoViolations = append(res.GoViolations, fmt.Sprintf("package %q is imported under %q, which shadows the predeclared identifier %s in the whole generated file", e.Path, e.Name, e.Name))
+		}
 	}
 	// same history on a fresh tracker: same answer (the naming is a function of the history)
 	if !pipe {
@@ -765,7 +768,7 @@ func (prop) Run(raw json.RawMessage, scratch string) core.Result {
 	res.Coq = fmt.Sprintf("mk_case %s %s %s %s %s %s %s %s", cs(in.Self), core.CoqList(ops), core.CoqBool(str), core.CoqBool(cmp), core.CoqBool(pipe),
 		core.CoqList(oobs), core.CoqList(fin), core.CoqList(lns))
 
-	// symptom class of a failing case (labels the report; all three classes are repaired, none is suppressed)
+	// symptom class of a failing case (labels the report; all four classes are repaired, none is suppressed)
 	res.Class = symptom(in, obs)
 
 	// distribution
@@ -796,6 +799,11 @@ func symptom(in input, obs observed) string {
 	for _, e := range obs.Final {
 		if !validLocalName(e.Name) {
 			return "digit_or_punct_name"
+		}
+	}
+	for _, e := range obs.Final {
+		if types.Universe.Lookup(e.Name) != nil {
+			return "predeclared_name"
 		}
 	}
 	return ""
@@ -862,6 +870,8 @@ func tagsOf(in input, obs observed, cmp bool, why string) []string {
 					continue // host name
 				}
 				switch {
+				case types.Universe.Lookup(strings.ToLower(s)) != nil:
+					tags["seg:predeclared"] = true
 				case token.IsKeyword(s):
 					tags["seg:keyword"] = true
 				case s != "" && s[0] >= '0' && s[0] <= '9':
